@@ -64,8 +64,8 @@ PROPS["C11"] = {
             "< > &, comments, CDATA, declarations, NUL, Latin-1, entity references) interleaved with valid and truncated messages and random bytes; long junk beyond every threshold "
             "then valid messages; x random fragmentations x thresholds {16, 128, 2048, disabled}; watchdog on every process(); distinct by (threshold, partition)",
     "trusted_base": ["table parser as for C02", "step/time watchdog (10 s, 10000 callbacks) stands for 'terminates' on the implementation side"],
-    "assumptions": ["the resynchronisation clause after a corrupt element is covered at the abstract level only by C11_junk_delivers_nothing/C11_bounded + C02 (opener-free junk); "
-                    "junk that imitates protocol elements is compared with the model, not proved to resynchronise (partial)"],
+    "assumptions": ["resynchronisation is proved for a corrupt prefix in the sense of Spec.Buf2.Corrupt (nothing starting inside it is ever a complete XML document) followed by a valid "
+                    "stream longer than the threshold; junk that completes into well-formed XML across the boundary is compared with the model only"],
 }
 
 MANIFEST_TEXT = {
@@ -130,10 +130,11 @@ MANIFEST_TEXT = {
     "C11": {
         "text": "Kernel-checked theorems (lean/Indi/Properties/C11.lean) for ANY text, ANY parser: processLoop is total (termination proof, measure = retained length) with no error outcome; "
                 "C11_bounded (retained length <= threshold whenever enabled), C11_genuine (only parser results are delivered, never None), C11_retained_suffix, "
-                "C11_junk_delivers_nothing; transparency of opener-free junk around valid messages is C02_abstract. Correspondence against buffer.py over junk assembled from protocol "
+                "C11_junk_delivers_nothing, C11_long_junk_transparent (opener-free junk of ANY length, also beyond the threshold, never prevents or delays the messages around it), "
+                "C11_resync (after a corrupt prefix every message of the following valid stream is delivered, in order, once that stream exceeds the threshold). Correspondence against buffer.py over junk assembled from protocol "
                 "fragments, truncations at every position and long junk, all thresholds, with a watchdog; oracle c11Holds in Lean on the observed calls.",
-        "note": "Partial: resynchronisation after a corrupt element that imitates protocol elements is explored (model = implementation on all cases) but not proved; wall-clock hang-freedom "
-                "of CPython/expat is represented by the watchdog only.",
+        "note": "Trusted: Lean kernel + standard axioms; the per-case executable checks streamOkB/corruptB decide whether a theorem's hypotheses hold for the real parser on that case; "
+                "wall-clock hang-freedom of CPython/expat is represented by the watchdog only.",
         "technique": "Lean 4 termination proof + invariants over the process loop + differential correspondence with watchdog",
     },
 }
